@@ -446,6 +446,88 @@ pub fn left_reach(g: &Grammar) -> BTreeMap<String, BTreeSet<String>> {
     }
 }
 
+/// C10's precondition for "the sentinel never surfaces": every `@leftrec` rule lists its recursive alternatives first,
+/// and each of them starts with a plain reference (not under a lookahead / optional / closure / nullable prefix) that
+/// leads back to the rule. Computed from the grammar itself, so it stays right for shrunk grammars.
+pub fn recursive_alternatives_first(g: &Grammar) -> bool {
+    let nulls = nullable_rules(g);
+    let reach = left_reach(g);
+    for r in g.normals().filter(|n| n.leftrec()) {
+        let arms: Vec<&Expr> = match strip(&r.body) {
+            Expr::Choice(v) => v.iter().collect(),
+            other => vec![other],
+        };
+        let mut seen_plain = false;
+        for arm in arms {
+            let mut lc = BTreeSet::new();
+            left_calls(g, arm, &nulls, &mut lc);
+            let recursive = lc.iter().any(|t| t == &r.name || reach.get(t).map_or(false, |s| s.contains(&r.name)));
+            if !recursive {
+                seen_plain = true;
+                continue;
+            }
+            if seen_plain {
+                return false;
+            }
+            // the recursive reference must be the plain first element of the alternative
+            let first = match strip(arm) {
+                Expr::Seq(v) => v.first().map(strip),
+                other => Some(other),
+            };
+            match first {
+                Some(Expr::Ref { typ, .. }) if typ == &r.name || reach.get(typ).map_or(false, |s| s.contains(&r.name)) => {}
+                _ => return false,
+            }
+        }
+        if !seen_plain {
+            // no seed alternative at all (only shrinking produces this): the rule can never match and the only failure
+            // there is to report is the seed itself - outside the clause
+            return false;
+        }
+    }
+    // rules on the way (e.g. `Bin = l:*Expr op r:Atom`) must start with the plain reference too
+    for r in g.normals().filter(|n| !n.leftrec()) {
+        let back: Vec<&NormalRule> = g.normals().filter(|l| l.leftrec() && reach.get(&r.name).map_or(false, |s| s.contains(&l.name))).collect();
+        if back.is_empty() {
+            continue;
+        }
+        let arms: Vec<&Expr> = match strip(&r.body) {
+            Expr::Choice(v) => v.iter().collect(),
+            other => vec![other],
+        };
+        let mut seen_plain = false;
+        for arm in arms {
+            let mut lc = BTreeSet::new();
+            left_calls(g, arm, &nulls, &mut lc);
+            let recursive = back.iter().any(|l| lc.iter().any(|t| t == &l.name || reach.get(t).map_or(false, |s| s.contains(&l.name))));
+            if !recursive {
+                seen_plain = true;
+                continue;
+            }
+            if seen_plain {
+                return false;
+            }
+            let first = match strip(arm) {
+                Expr::Seq(v) => v.first().map(strip),
+                other => Some(other),
+            };
+            if !matches!(first, Some(Expr::Ref { .. })) {
+                return false;
+            }
+        }
+    }
+    true
+}
+
+fn strip(e: &Expr) -> &Expr {
+    match e {
+        Expr::Group(b) => strip(b),
+        Expr::Seq(v) if v.len() == 1 => strip(&v[0]),
+        Expr::Choice(v) if v.len() == 1 => strip(&v[0]),
+        _ => e,
+    }
+}
+
 /// All rules referenced (by Ref, Include or class part) from a rule, transitively; includes itself.
 pub fn reachable_rules(g: &Grammar, root: &str) -> BTreeSet<String> {
     let mut seen = BTreeSet::new();
